@@ -6,6 +6,8 @@ package main
 import (
 	"encoding/json"
 	"fmt"
+	"go/ast"
+	"go/parser"
 	"go/token"
 	"go/types"
 	"os"
@@ -138,26 +140,65 @@ func loadRepo(dir string) (*loaded, error) {
 		BuildFlags: []string{"-tags=verif"},
 		Tests:      false,
 	}
-	pkgs, err := packages.Load(cfg, "./builder/...", "./context/...", "./engine/...", "./internal/...")
-	if err != nil {
-		return nil, fmt.Errorf("load: %v", err)
+	load := func() ([]*packages.Package, error) {
+		pkgs, err := packages.Load(cfg, "./builder/...", "./context/...", "./engine/...", "./internal/...")
+		if err != nil {
+			return nil, fmt.Errorf("load: %v", err)
+		}
+		if len(pkgs) == 0 {
+			return nil, fmt.Errorf("load: zero packages")
+		}
+		var errs []string
+		packages.Visit(pkgs, nil, func(p *packages.Package) {
+			for _, e := range p.Errors {
+				errs = append(errs, fmt.Sprintf("%s: %s", p.PkgPath, e.Msg))
+			}
+		})
+		if len(errs) > 0 {
+			sort.Strings(errs)
+			if len(errs) > 8 {
+				errs = errs[:8]
+			}
+			return nil, fmt.Errorf("type errors: %s", strings.Join(errs, "; "))
+		}
+		return pkgs, nil
 	}
-	if len(pkgs) == 0 {
-		return nil, fmt.Errorf("load: zero packages")
+	pkgs, err := load()
+	if err != nil {
+		return nil, err
 	}
 	l := &loaded{Pkgs: map[string]*packages.Package{}, SSA: map[string]*ssa.Package{}}
-	var errs []string
-	packages.Visit(pkgs, nil, func(p *packages.Package) {
-		for _, e := range p.Errors {
-			errs = append(errs, fmt.Sprintf("%s: %s", p.PkgPath, e.Msg))
+	// step 0 of the normalisation (rename.go): renamed unexported helpers, fields and types are read under their reference names
+	if os.Getenv("GVERIF_NORENAME") == "" {
+		first := map[string]*packages.Package{}
+		for _, p := range pkgs {
+			first[p.PkgPath] = p
 		}
-	})
-	if len(errs) > 0 {
-		sort.Strings(errs)
-		if len(errs) > 8 {
-			errs = errs[:8]
+		if ren, notes := computeRenames(first); len(ren) > 0 {
+			sites := renameSites(first, ren)
+			cfg.ParseFile = func(fset *token.FileSet, filename string, src []byte) (*ast.File, error) {
+				f, err := parser.ParseFile(fset, filename, src, parser.AllErrors|parser.ParseComments)
+				if m := sites[filename]; f != nil && len(m) > 0 {
+					ast.Inspect(f, func(n ast.Node) bool {
+						if id, ok := n.(*ast.Ident); ok {
+							if to, ok := m[fset.Position(id.Pos()).Offset]; ok {
+								id.Name = to
+							}
+						}
+						return true
+					})
+				}
+				return f, err
+			}
+			if again, err2 := load(); err2 == nil {
+				pkgs = again
+				for _, n := range notes {
+					l.inlineNotes = append(l.inlineNotes, "names: "+n)
+				}
+			} else {
+				l.inlineNotes = append(l.inlineNotes, "names: reading the renamed declarations under their reference names did not type-check ("+err2.Error()+"); the tree is analysed as written")
+			}
 		}
-		return nil, fmt.Errorf("type errors: %s", strings.Join(errs, "; "))
 	}
 	for _, p := range pkgs {
 		l.Pkgs[p.PkgPath] = p
@@ -212,7 +253,9 @@ func loadRepo(dir string) (*loaded, error) {
 	// functions that are not in the baseline are inlined into their callers
 	var dropped map[*ssa.Function]bool
 	if os.Getenv("GVERIF_NOINLINE") == "" {
-		dropped, l.inlineNotes, l.inlineErrs = inlineHelpers(l.Tops)
+		var inotes []string
+		dropped, inotes, l.inlineErrs = inlineHelpers(l.Tops)
+		l.inlineNotes = append(l.inlineNotes, inotes...)
 	}
 	l.dropped = dropped
 	var addFn func(f *ssa.Function)
